@@ -73,9 +73,9 @@ var plans = map[string]*Plan{
 	},
 	"C05": {
 		Level:     "exploration",
-		Scenarios: []ScenPlan{{"lbdist", 40000, 800000}},
+		Scenarios: []ScenPlan{{"lbdist", 40000, 800000}, {"sysws", 3000, 60000}},
 		QuickWallS: 120, ThoroughWallS: 1500,
-		Rule:        "Scenario lbdist: pools of 1-6 (thorough 1-8) backends, weights 0-6, a drawn history of add/remove(heaviest-biased)/eject-through-real-failures/recover/traffic, then a measurement window with a stable eligible set: round_robin exact window and exact totals under 2-8 (thorough 2-64) concurrent pickers; weighted_round_robin exact fresh-pool windows at every offset and the 2*W_total/W_eligible bound over every sub-window after a history; least_connections minimal in-flight against the harness' own tallies of held requests.",
+		Rule:        "Scenario lbdist: pools of 1-6 (thorough 1-8) backends, weights 0-6, a drawn history of add/remove(heaviest-biased)/eject-through-real-failures/recover/traffic, then a measurement window with a stable eligible set: round_robin exact window and exact totals under 2-8 (thorough 2-64) concurrent pickers; weighted_round_robin exact fresh-pool windows at every offset and the 2*W_total/W_eligible bound over every sub-window after a history; least_connections minimal in-flight against the harness' own tallies of held requests (also for requests of clients that are already gone). Scenario sysws (system simulation): after a WebSocket tunnel has ended, a held request and the next one go to different backends under least_connections.",
 		Real:        microReal, Stub: microStub, Assumptions: commonAssumptions,
 		ExpectProbes: []string{"rr-concurrent", "wrr-fresh", "wrr-history", "lc-dispatch"},
 	},
